@@ -95,6 +95,9 @@ def grid(dialect, quotes, nm=None):
                     # defect-adjusted: the chain breaks at mid_t - written as C, read as lower(C)
                     {"source": ["<default>.src_t"], "target": ["<default>.fin_t"], "intermediate": ["<default>.mid_t"],
                      "pairs": sorted([[f"<default>.src_t.{Cs}", f"<default>.mid_t.{C}"], [f"<default>.mid_t.{Cs}", f"<default>.fin_t.{C}"]]) if C != Cs else [[f"<default>.src_t.{C}", f"<default>.fin_t.{C}"]]}, "KF-16a"))
+        # the table is renamed between the write and the read: the column written under the old table name is found again under the new one
+        out.append(("column_written_table_renamed_then_read", f"insert into stg_t select {c} from src_t; alter table stg_t rename to mid_t; insert into fin_t select {c} from mid_t",
+                    {"source": ["<default>.src_t"], "target": ["<default>.fin_t"], "intermediate": ["<default>.mid_t"], "pairs": [[f"<default>.src_t.{C}", f"<default>.fin_t.{C}"]]}, None, None))
         a = spell(nm["alq"], case, q)
         out.append(("alias", f"insert into tgt_t select {a}.c1 from src_t {a}", {"source": ["<default>.src_t"], "target": ["<default>.tgt_t"], "pairs": [["<default>.src_t.c1", "<default>.tgt_t.c1"]]}, None, None))
         out.append(("alias_as", f"insert into tgt_t select {a}.c1 from src_t as {a}", {"source": ["<default>.src_t"], "target": ["<default>.tgt_t"], "pairs": [["<default>.src_t.c1", "<default>.tgt_t.c1"]]}, None, None))
